@@ -133,6 +133,9 @@ def bexpr(e, x):
         # register N holding c - the same bytes as ["v", name], reached by another route of the generator
         fmt, addr = type(e).__dict__[x[1]].fmt_addr(e)
         return getattr(e, "m" + fmt)[e.r10 + e.r[x[2]] + (addr - x[3])]
+    if t == "pm":
+        # ["pm", letter, regno, k]: the packet element of format `letter` at the run-time byte offset (register regno) + k
+        return getattr(e, "p" + x[1])[get_reg(e, "r", x[2]) + x[3]]
     if t == "neg":
         return -bexpr(e, x[1])
     if t == "abs":
